@@ -8,7 +8,7 @@ def _c13_project(op, line):
     return line
 
 PROPS["C13"] = {
-    "families": {"codec": {"quick": 2000, "thorough": 80000}},
+    "families": {"codec": {"quick": 8000, "thorough": 160000}},
     "relevant": _c13_relevant,
     "project": _c13_project,
     "mon_clauses": ["group_roundtrip", "followers_found", "no_panic{op=getgrp}", "no_panic{op=reparse}", "ddef_mismatch"],
